@@ -6,6 +6,7 @@ import (
 	"math/rand"
 	"strings"
 	"sync"
+	"verif/memkv"
 
 	"github.com/xuperchain/xupercore/bcs/ledger/xledger/state/utxo"
 	pb "github.com/xuperchain/xupercore/bcs/ledger/xledger/xldgpb"
@@ -75,7 +76,14 @@ func runBursts(seed int64, n int) (res burstResult) {
 	}
 	splitID := setup[0].Txid
 	nextCoin := 0
+	burstNo := 0
 	fire := func(fs []func() error) (ok int) {
+		// every second burst runs with storage-latency jitter (see memkv.SetJitter)
+		burstNo++
+		if (burstNo/4)%2 == 1 {
+			memkv.SetJitter(seed*131+int64(burstNo), 4)
+			defer memkv.SetJitter(0, 0)
+		}
 		var wg sync.WaitGroup
 		start := make(chan struct{})
 		var mu sync.Mutex
@@ -152,20 +160,26 @@ func runBursts(seed int64, n int) (res burstResult) {
 			var mu sync.Mutex
 			handed := map[string]int{}
 			var fs []func() error
-			for i := 0; i < 4; i++ {
+			// 6 selectors x 5 calls each: after the first calls the selectors keep meeting at the
+			// next unlocked output of the scan, so one burst holds dozens of contention points
+			for i := 0; i < 6; i++ {
 				i := i
 				fs = append(fs, func() error {
-					ins, _, _, err := node.State.SelectUtxos(sn.K(1).Address, big.NewInt(int64(60*(1+i%2))), true, false)
-					mu.Lock()
-					for _, in := range ins {
-						k := utxo.GenUtxoKey(in.FromAddr, in.RefTxid, in.RefOffset)
-						if j, dup := handed[k]; dup {
-							problem("select|output-handed-to-two-selectors", "output %s was returned, locked, to selector %d and selector %d", k, j, i)
+					var last error
+					for c := 0; c < 5; c++ {
+						ins, _, _, err := node.State.SelectUtxos(sn.K(1).Address, big.NewInt(int64(60*(1+(i+c)%2))), true, false)
+						last = err
+						mu.Lock()
+						for _, in := range ins {
+							k := utxo.GenUtxoKey(in.FromAddr, in.RefTxid, in.RefOffset)
+							if j, dup := handed[k]; dup {
+								problem("select|output-handed-to-two-selectors", "output %s was returned, locked, to selector %d and selector %d", k, j, i)
+							}
+							handed[k] = i
 						}
-						handed[k] = i
+						mu.Unlock()
 					}
-					mu.Unlock()
-					return err
+					return last
 				})
 			}
 			res.SelectBursts++
